@@ -643,16 +643,32 @@ fn hosts(args: &Args, rep: &mut Report) -> i32 {
     bed.publish(&world.build(&factory));
     let log = Arc::new(FetchLog::default());
     install_rsync(&bed, &log);
-    install_http(Arc::new(RrdpDouble::default()), &log);
+    // every RRDP repository exists (a session at serial 1 with one object), so that a run that may ask leaves a copy
+    let mut double = RrdpDouble::default();
+    for (idx, c) in classes.iter().enumerate() {
+        if !c.https_ok { continue }
+        let obj = format!("rsync://rrdp-objects.verif.test/r{idx}/x.roa");
+        double.add(&format!("https://{}/r{idx}/notify.xml", c.auth), &[(obj, Bytes::from_static(b"an object"))]);
+    }
+    install_http(Arc::new(double), &log);
 
     let thread_variants: Vec<usize> = if args.thorough() { vec![1, 2, 6] } else { vec![2] };
     let mut broken = 0;
     for threads in thread_variants {
-        // requested[(allow, kind, idx)]
-        let mut requested: BTreeSet<(bool, &'static str, usize)> = BTreeSet::new();
-        let mut all_requests: BTreeMap<bool, Vec<String>> = BTreeMap::new();
-        for allow in [false, true] {
-            bed.wipe_cache();
+        // requested[(allow, known, kind, idx)]; known = the run starts on the cache the run before (option on) left
+        let mut requested: BTreeSet<(bool, bool, &'static str, usize)> = BTreeSet::new();
+        let mut all_requests: BTreeMap<(bool, bool), Vec<String>> = BTreeMap::new();
+        for (allow, known) in [(false, false), (true, false), (false, true), (true, true)] {
+            if !known { bed.wipe_cache(); }
+            else {
+                // the copies must really be there
+                let mut n = 0;
+                fn count(dir: &std::path::Path, n: &mut usize) {
+                    if let Ok(rd) = std::fs::read_dir(dir) { for e in rd.flatten() { let p = e.path(); if p.is_dir() { count(&p, n) } else { *n += 1 } } }
+                }
+                count(&bed.cache.join("rrdp"), &mut n);
+                if n < classes.len() / 2 { eprintln!("fetch hosts: only {n} RRDP copies in the cache after the run with the option on"); broken += 1; }
+            }
             let _ = bed.take_rsync_log();
             let _ = log.take();
             let mut config = bed.config();
@@ -665,10 +681,10 @@ fn hosts(args: &Args, rep: &mut Report) -> i32 {
             reqs.extend(log.take().into_iter().filter(|e| e.2 == "start").map(|e| e.1));
             reqs.sort(); reqs.dedup();
             for (idx, _) in classes.iter().enumerate() {
-                if reqs.iter().any(|u| u.starts_with("rsync://") && u.ends_with(&format!("/m{idx}/"))) { requested.insert((allow, "caRepository", idx)); }
-                if reqs.iter().any(|u| u.starts_with("https://") && u.ends_with(&format!("/r{idx}/notify.xml"))) { requested.insert((allow, "rpkiNotify", idx)); }
+                if reqs.iter().any(|u| u.starts_with("rsync://") && u.ends_with(&format!("/m{idx}/"))) { requested.insert((allow, known, "caRepository", idx)); }
+                if reqs.iter().any(|u| u.starts_with("https://") && u.ends_with(&format!("/r{idx}/notify.xml"))) { requested.insert((allow, known, "rpkiNotify", idx)); }
             }
-            all_requests.insert(allow, reqs);
+            all_requests.insert((allow, known), reqs);
         }
         let mut observations = Vec::new();
         for r in &rows {
@@ -677,6 +693,7 @@ fn hosts(args: &Args, rep: &mut Report) -> i32 {
             let c = &classes[idx];
             let kind: &'static str = if r["kind"] == "rpkiNotify" { "rpkiNotify" } else { "caRepository" };
             let allow = r["allow"].as_bool().unwrap();
+            let known = r["known"].as_bool().unwrap_or(false);
             let parses = if kind == "rpkiNotify" { c.https_ok } else { c.rsync_ok };
             let uri_text = if kind == "rpkiNotify" { format!("https://{}/r{idx}/notify.xml", c.auth) } else { format!("rsync://{}/m{idx}/ca/", c.auth) };
             if parses != r["parses"].as_bool().unwrap() {
@@ -687,21 +704,22 @@ fn hosts(args: &Args, rep: &mut Report) -> i32 {
                 rep.add_note(pid, "rows_refused_by_the_uri_parser", 1);
                 continue
             }
-            let req = requested.contains(&(allow, kind, idx));
+            let req = requested.contains(&(allow, known, kind, idx));
             let must_not = r["must_not"].as_bool().unwrap();
             rep.eval(pid);
             let brief = json!({"class": class, "authority": c.auth, "kind": kind, "uri": uri_text, "allow_dubious_hosts": allow,
-                               "validation_threads": threads});
+                               "cache": if known { "left by a run with the option on" } else { "fresh" }, "validation_threads": threads});
             if must_not {
-                rep.nontrivial(pid, format!("{kind}|{class}"));
+                rep.nontrivial(pid, format!("{kind}|{class}|{known}"));
                 if req {
-                    rep.violation(pid, &format!("{kind}/{class}"),
-                        format!("allow-dubious-hosts off, yet a request was started for {uri_text} ({kind} of a CA certificate)"),
-                        brief.clone(), json!({"requests_of_the_run": all_requests[&allow]}));
+                    rep.violation(pid, &format!("{kind}/{class}{}", if known { "/known-repository" } else { "" }),
+                        format!("allow-dubious-hosts off, yet a request was started for {uri_text} ({kind} of a CA certificate{})",
+                            if known { "; the cache holds a copy from a run with the option on" } else { "" }),
+                        brief.clone(), json!({"requests_of_the_run": all_requests[&(allow, known)]}));
                 }
             }
             if !r["stated"].as_bool().unwrap() {
-                observations.push(format!("{kind} {} allow={allow}: {}", c.auth, if req { "requested" } else { "not requested" }));
+                if !known { observations.push(format!("{kind} {} allow={allow}: {}", c.auth, if req { "requested" } else { "not requested" })); }
             }
             if req != r["model_requests"].as_bool().unwrap() {
                 rep.divergence(pid, format!("{uri_text} allow={allow}: code {} a request, the intended model {}",
